@@ -360,9 +360,12 @@ func (r *funcRun) call(st *State, cc *ssa.CallCommon, instr ssa.Instruction, res
 			// method call on possibly nil pointer is legal; deref obligations arise in the callee
 		}
 	} else {
-		// dynamic call of a function value
-		callee = "dynamic"
+		// dynamic call of a function value: contracts are keyed by the type of the value
+		callee = "dyn:" + typeString(cc.Value.Type())
 		sig, _ = cc.Value.Type().Underlying().(*types.Signature)
+		if c == nil {
+			c = r.v.spec.Contracts[callee]
+		}
 	}
 	for _, a := range cc.Args {
 		args = append(args, r.val(st, a))
@@ -388,7 +391,7 @@ func (r *funcRun) call(st *State, cc *ssa.CallCommon, instr ssa.Instruction, res
 		// no contract: everything may change, result unconstrained
 		r.note("uncontracted_call " + callee)
 		st.havocAll()
-		if fn := cc.StaticCallee(); (fn != nil && fn.Pkg == r.v.pkg) || callee == "dynamic" {
+		if fn := cc.StaticCallee(); (fn != nil && fn.Pkg == r.v.pkg) || strings.HasPrefix(callee, "dyn:") {
 			// a function of the package without contract may do anything, also with the locks
 			var gs []string
 			for g := range r.v.spec.GhostVars {
